@@ -378,5 +378,5 @@ const ruleC15 = "rapid draws (codec in {H264Packet Annex-B, H264Packet AVC, AV1D
 func TestC15(t *testing.T) {
 	r := begin(t, "C15", "fault_enumeration", ruleC15)
 	defer r.finish()
-	subC15.rapidRun(r, n(1500, 60000), genLossCase)
+	subC15.rapidRun(r, n(1500, 36000), genLossCase)
 }
